@@ -46,7 +46,7 @@ def conc(lines, n):
         for _ in range(nth):
             k, a = t[pos], t[pos + 1]
             pos += 2
-            threads.append({"add": "adder %s" % z(a), "rot": "changer NewFile", "ext": "changer SameFile"}[k])
+            threads.append({"add": "adder %s" % z(a), "rot": "changer NewFile", "rotf": "changer FullFile", "ext": "changer SameFile"}[k])
         nsteps = int(t[pos][1:], 16)
         pos += 1
         if nsteps > 120:
